@@ -83,16 +83,18 @@ var cliExprs = []string{"$.a", "$", "$..a", "$.b", "@.a", "$.a[0]", "avg($..a)",
 // every mode
 var cliForeignWs = []string{"1\f", "\v{\"a\":1}", "[1]\u00a0", "\u0085true", "\"x\"\u2028", "\f", "{\"a\":[2]}\v", "\u00a0[1,2]", "2"}
 
-var cliDataDocs = []string{`{"a":[0]}`, `{"a":[5]}`, `{"a":[5,2,3]}`, `{"a":[1,3]}`, `{"a":[1,"s"]}`, `{"a":[]}`, `{"a":[2]}`, `{"a":{"b":4}}`, `{"a":[0,4]}`, `{"a":["s"]}`, `{"a":7}`,
-	`{"a":{}}`, `{"a":""}`, `{"a":null}`, `{"b":1}`, `{"a":[[]]}`, `{"a":"s"}`, `{"a":false}`}
+// data-dependent lines, group A: expressions that divide by members / compare them — they fail at run time on one line and match
+// (one node, several, none) on another
+var cliDataDocs = []string{`{"a":[0]}`, `{"a":[5]}`, `{"a":[5,2,3]}`, `{"a":[1,3]}`, `{"a":[1,"s"]}`, `{"a":[]}`, `{"a":[2]}`, `{"a":{"b":4}}`, `{"a":[0,4]}`, `{"a":["s"]}`, `{"a":7}`}
+var cliDataExprs = []string{"$.a[?(10 % @ == 0)]", "$.a[?(@ > 1)]", "$.a[(@.length - 1)]", "$.a[?(12 / @ > 2)]", "$.a[?(@ * 2 > 3)]", "$.a[0]", "$.a[?(@ % 2 == 1)]", "$.a.b", "10 % $.a[0]"}
 
-// the last group are not JSONPaths: the tool falls back to Eval, whose value may be an empty container, an empty string or null
-// taken from the document (suppressed in -m mode like an empty JSONPath result)
-var cliDataExprs = []string{"$.a[?(10 % @ == 0)]", "$.a[?(@ > 1)]", "$.a[(@.length - 1)]", "$.a[?(12 / @ > 2)]", "$.a[?(@ * 2 > 3)]", "$.a[0]", "$.a[?(@ % 2 == 1)]", "$.a.b", "10 % $.a[0]",
-	"($.a)", "(@.a)", "($.a[0])", "$.a == null", "first($.a)", "($.b)"}
+// group B: not JSONPaths — the tool falls back to Eval, whose value may be an empty container, an empty string or null taken from
+// the document (suppressed in -m mode like an empty JSONPath result)
+var cliEvalDocs = []string{`{"a":{}}`, `{"a":""}`, `{"a":null}`, `{"b":1}`, `{"a":[[]]}`, `{"a":"s"}`, `{"a":false}`, `{"a":[]}`, `{"a":[5]}`, `{"a":{"b":4}}`, `{"b":{}}`, `{"b":[]}`}
+var cliEvalExprs = []string{"($.a)", "(@.a)", "($.a[0])", "$.a == null", "first($.a)", "($.b)"}
 
 func streamCli(o *Out, r *Rng, tier string) {
-	n := 250
+	n := 400
 	if tier == "thorough" {
 		n = 3000
 	}
@@ -120,9 +122,12 @@ func streamCli(o *Out, r *Rng, tier string) {
 		if r.Chance(8) {
 			docs, nl = cliForeignWs, 2+r.Intn(4)
 			o.Stat("cli.foreign-white-space-lines")
-		} else if r.Chance(20) {
+		} else if r.Chance(22) {
 			expr, docs, nl = r.Pick(cliDataExprs), cliDataDocs, 2+r.Intn(4)
 			o.Stat("cli.data-dependent-lines")
+		} else if r.Chance(12) {
+			expr, docs, nl = r.Pick(cliEvalExprs), cliEvalDocs, 2+r.Intn(4)
+			o.Stat("cli.eval-fallback-lines")
 		}
 		var input []byte
 		for k := 0; k < nl; k++ {
